@@ -64,7 +64,7 @@ def make_case(v, variant, k):
         entries[decoy] = False
     cmd = "cd" if variant == "cd" else "vpa"
     return {"name": name, "ctx": ctx, "variant": variant, "prefix": prefix, "line": "%s %s%s" % (cmd, opener, typed),
-            "entries": entries, "for_dir": variant == "cd", "pinned_ok": v["pinned_ok"],
+            "entries": entries, "for_dir": variant == "cd", "pinned_ok": v["pinned_ok"], "pinned_insert": txt(v.get("pinned_insert", "")),
             "feat": {"ctx": ctx, "variant": variant, "specials": sorted(set(name) & META), "first": name[:1], "name": name, "blank_tilde": " ~" in name, "nbackquote": name.count("`"),
                      "is_dir": is_dir,
                      "model_pinned_ok": v["pinned_ok"], "len": len(name)}}
@@ -216,6 +216,7 @@ def runner(rep, tier, seed, replay):
         shutil.rmtree(root, ignore_errors=True)
     mism, okidx = [], []
     agree_model = 0
+    n_insert, insert_drift = 0, []
     for i, (c, g) in enumerate(zip(cases, got)):
         if g and "tool_error" in g:
             raise ToolError(g["tool_error"])
@@ -227,6 +228,11 @@ def runner(rep, tier, seed, replay):
             okidx.append(i)
         if c["variant"] == "file" and (k is None) == bool(c["pinned_ok"]):
             agree_model += 1
+        # conformance of the model's "pinned" Insert (escape_path / wrap_sep_string) to the code: the text the real completer offers
+        if c["variant"] == "file" and g and len(g.get("completions", [])) == 1:
+            n_insert += 1
+            if g["completions"][0]["completion"] != c["pinned_insert"]:
+                insert_drift.append((c["name"], c["ctx"], g["completions"][0]["completion"], c["pinned_insert"]))
     log("[C20] in-process: %d round trips as specified, %d differ" % (len(okidx), len(mism)))
     # pty layer: every cluster of mismatches (bounded) + a sample of matches
     clusters = {}
@@ -295,6 +301,11 @@ def runner(rep, tier, seed, replay):
     rep.cov["pty_confirmed_failures"] = confirmed
     rep.cov["splice_emulation_disagreements"] = disagree
     rep.cov["model_pinned_agreement"] = agree_model
+    rep.cov["insert_text_compared"] = n_insert
+    rep.cov["insert_text_drift"] = len(insert_drift)
+    rep.cov["insert_text_drift_examples"] = insert_drift[:8]
+    if insert_drift:
+        log("[C20] inserted text differs from the model's pinned Insert on %d cases, e.g. %r" % (len(insert_drift), insert_drift[:3]))
     rep.cov["model_says_pinned_completer_fails_somewhere"] = model_says_pinned_fails
     rep.cov["exhaustive"] = True
     for i in rnd.sample(range(len(cases)), min(5, len(cases))):
